@@ -20,8 +20,8 @@ type P [3]float64
 type C3 = model3d.Coord3D
 type C2 = model2d.Coord
 
-func p3(c C3) P  { return P{c.X, c.Y, c.Z} }
-func p2(c C2) P  { return P{c.X, c.Y, 0} }
+func p3(c C3) P    { return P{c.X, c.Y, c.Z} }
+func p2(c C2) P    { return P{c.X, c.Y, 0} }
 func (p P) c3() C3 { return C3{X: p[0], Y: p[1], Z: p[2]} }
 func (p P) c2() C2 { return C2{X: p[0], Y: p[1]} }
 
@@ -164,21 +164,21 @@ func (f *frame) outsideBy(p P) bool {
 }
 
 type tally struct {
-	queries, outsideQueries, contained, withinMargin int64
+	queries, outsideQueries, contained, withinMargin    int64
 	cDecided, cUnstable, cOutsideDecided, insideChecked int64
 }
 
 // querier runs the point queries of one subject.
 type querier struct {
-	c    *vlib.Case
-	s    *subject
-	f    frame
-	rng  *rand.Rand
-	t    tally
-	in   []P // contained samples
-	uin  []P // samples where the underlying definition is true
-	dead bool
-	worstLeak float64
+	c           *vlib.Case
+	s           *subject
+	f           frame
+	rng         *rand.Rand
+	t           tally
+	in          []P // contained samples
+	uin         []P // samples where the underlying definition is true
+	dead        bool
+	worstLeak   float64
 	worstWithin float64
 }
 
@@ -207,19 +207,83 @@ func (q *querier) stableUnder(p P) (isTrue, stable bool) {
 	if !q.s.under(p) {
 		return false, false
 	}
+	step := func(v, sg float64) float64 {
+		n := v + sg*q.f.h
+		if n == v { // h below the ulp of v: widen
+			n = math.Nextafter(v, sg*math.Inf(1))
+		}
+		return n
+	}
+	// axis neighbours
 	for k := 0; k < q.s.dim; k++ {
 		for _, sg := range []float64{-1, 1} {
 			n := p
-			n[k] += sg * q.f.h
-			if n[k] == p[k] { // h below the ulp of p: widen
-				n[k] = math.Nextafter(p[k], sg*math.Inf(1))
-			}
+			n[k] = step(p[k], sg)
 			if !q.s.under(n) {
 				return true, false
 			}
 		}
 	}
+	// diagonal neighbours: a point that sits exactly on a re-entrant edge or
+	// corner of a union of boxes has all its axis neighbours inside
+	for m := 0; m < 1<<uint(q.s.dim); m++ {
+		n := p
+		for k := 0; k < q.s.dim; k++ {
+			sg := 1.0
+			if m&(1<<uint(k)) != 0 {
+				sg = -1
+			}
+			n[k] = step(p[k], sg)
+		}
+		if !q.s.under(n) {
+			return true, false
+		}
+	}
 	return true, true
+}
+
+// stable3 reports whether f holds at q and at its 6 axis and 8 diagonal
+// neighbours at distance h (per coordinate).
+func stable3(f func(C3) bool, q C3, h float64) bool {
+	if !f(q) {
+		return false
+	}
+	for ax := 0; ax < 3; ax++ {
+		for _, sg := range []float64{-1, 1} {
+			if !f(q.Add(axis3(ax, sg*h))) {
+				return false
+			}
+		}
+	}
+	for m := 0; m < 8; m++ {
+		d := C3{X: h, Y: h, Z: h}
+		if m&1 != 0 {
+			d.X = -h
+		}
+		if m&2 != 0 {
+			d.Y = -h
+		}
+		if m&4 != 0 {
+			d.Z = -h
+		}
+		if !f(q.Add(d)) {
+			return false
+		}
+	}
+	return true
+}
+
+// stable2 is the 2D analogue of stable3 (4 axis + 4 diagonal neighbours).
+func stable2(f func(C2) bool, q C2, h float64) bool {
+	if !f(q) {
+		return false
+	}
+	for _, d := range []C2{{X: h}, {X: -h}, {Y: h}, {Y: -h}, {X: h, Y: h}, {X: h, Y: -h}, {X: -h, Y: h}, {X: -h, Y: -h}} {
+		if !f(q.Add(d)) {
+			return false
+		}
+	}
+	return true
 }
 
 // probe evaluates one query point against clauses (b) and (c).
